@@ -98,6 +98,31 @@ def expand_control(prog: list, defines: dict | None = None) -> tuple[list, dict]
     return go(prog, root, 0), stats
 
 
+def early_names(prog: list) -> set[str]:
+    """Names used where a816 evaluates before all labels exist (width inference of unsized operands, *=, @=, :=, .if,
+    .for bounds, macro arguments): a forward reference is not allowed there."""
+    out: set[str] = set()
+
+    def names(e):
+        return {t[1] for t in e if t[0] == "sym"}
+
+    for st, _, _ in walk(prog):
+        k = st["k"]
+        if k == "ins" and st.get("e") is not None and not st["sz"] and st["shape"] != "rel":
+            out |= names(st["e"])
+        elif k in ("org", "reloc", "assign"):
+            out |= names(st["e"])
+        elif k == "if":
+            out |= names(st["c"])
+        elif k == "for":
+            out |= names(st["a"]) | names(st["b"])
+        elif k == "call":
+            for a in st["as"]:
+                if isinstance(a, list):
+                    out |= names(a)
+    return out
+
+
 # =============================================================================== C09
 def _defined_names(stmts: list) -> set[str]:
     """Names defined in the scope of `stmts` itself (.if branches and included files open no scope).
@@ -205,6 +230,11 @@ def inline_macros(prog: list, const_names: set[str] | None = None) -> tuple[list
                         binds.append({"k": "assign", "n": ren[p], "e": a})
                         inner_consts.add(ren[p])
                     else:
+                        if ren[p] in early_names(body):
+                            # the body needs the parameter before all labels exist (width inference, .if, bounds ...): with a
+                            # deferred argument the original falls back to whatever outer name is visible then; a hygienic
+                            # twin has no such name, so inlining is not defined here (the reference expansion judges it)
+                            raise NoTwin("deferred argument used where a value is needed early")
                         stats["deferred_bindings"] += 1
                         binds.append({"k": "sym", "n": ren[p], "e": a})
                 out.append({"k": "block", "b": binds + go(body, inner_consts, depth + 1)})
